@@ -74,3 +74,10 @@ package ontology
 //@ func (d dagWriter) DefineRelationship(ctx context.Context, from ID, t RelationshipType, to ID) (err error)
 //@   atcall NewCreate !SpecEdges[Relationship{From: from, To: to, Type: t}] && SpecNodes[from] && SpecNodes[to] && from != to && !SpecReach(to, from)
 //@   modifies *
+
+//@ # every target is checked against the pre-state graph (all new edges leave `from`, so they
+//@ # cannot create a path into `from` among themselves unless a target is `from` or reaches it)
+//@ func (d dagWriter) DefineFromOneToManyRelationships(ctx context.Context, from ID, t RelationshipType, to []ID) (err error)
+//@   atcall NewCreate SpecNodes[from] && (forall i int :: 0 <= i && i < len(to) ==> SpecNodes[to[i]] && to[i] != from && !SpecReach(to[i], from))
+//@   modifies *
+//@   loop 0 invariant forall j int :: 0 <= j && j < __ri(0) ==> rels[j].To != from && !SpecReach(rels[j].To, from)
